@@ -476,6 +476,7 @@ impl Engine for BudgetEngine {
                     continue;
                 }
             };
+            libeval::digest_mix(format!("{obs:?}").as_bytes());
             stats.add("sim.time_ns", obs.last().map(|o| o.w_after.min(1 << 50)).unwrap_or(0));
             let before = res.violations.len();
             self.check_obs(case, &obs, stall, n_rules, &counts, f0, &mut res.violations, &mut stats);
